@@ -241,7 +241,13 @@ Alts(s) ==
                                [lab |-> "C.y:I(valid)", x |-> "C", fi |-> 2, fld |-> JY(N("I"))],
                                [lab |-> "C.y:K(valid)", x |-> "C", fi |-> 2, fld |-> JY(N("K"))],
                                [lab |-> "C.y(no k)", x |-> "C", fi |-> 2, fld |-> Fd("y", N("A"))],
-                               [lab |-> "C.y missing", x |-> "C", fi |-> 2, fld |-> Fd("w", N("A"))] }
+                               [lab |-> "C.y missing", x |-> "C", fi |-> 2, fld |-> Fd("w", N("A"))],
+                               \* the interface field takes NO arguments (I.x and every implementer's x lose theirs);
+                               \* A.x then adds one of its own, required or optional
+                               [lab |-> "A.argless-extra-required", x |-> "A", fi |-> 1, argless |-> TRUE,
+                                fld |-> FdA("x", N("String"), << Ar("r", TNN(N("Int"))) >>)],
+                               [lab |-> "A.argless-extra-optional(valid)", x |-> "A", fi |-> 1, argless |-> TRUE,
+                                fld |-> FdA("x", N("String"), << Ar("r", N("Int")) >>)] }
     [] s = "d.nnnn" -> { [lab |-> p \o ":" \o WLab(w), p |-> p, w |-> w] :
                            p \in {"field", "arg", "input"},
                            w \in { <<"NN", "NN">>, <<"L", "NN", "NN">>, <<"NN", "L", "NN", "NN">> } }
@@ -322,7 +328,12 @@ Apply(c, s, a) ==
            [] a.lab = "arg" -> [c EXCEPT !.types["Q"].fields[QG].args[1].nil = TRUE]
            [] a.lab = "value" -> [c EXCEPT !.types["E"].values[1].nil = TRUE]
            [] a.lab = "input" -> [c EXCEPT !.types["In3"].inputs[1].nil = TRUE])
-    [] s = "d.impl" -> [c EXCEPT !.types[a.x].fields[a.fi] = a.fld]
+    [] s = "d.impl" ->
+         IF "argless" \in DOMAIN a
+         THEN [c EXCEPT !.types["I"].fields[1] = Fd("x", N("String")), !.types["B"].fields[1] = Fd("x", N("String")),
+                        !.types["C"].fields[1] = Fd("x", N("String")), !.types["K"].fields[1] = Fd("x", N("String")),
+                        !.types[a.x].fields[a.fi] = a.fld]
+         ELSE [c EXCEPT !.types[a.x].fields[a.fi] = a.fld]
     [] s = "d.nnnn" ->
          (CASE a.p = "field" -> [c EXCEPT !.types["Q"].fields[QT].type = TR(a.w, "Int")]
            [] a.p = "arg"   -> [c EXCEPT !.types["Q"].fields[QG].args[1].type = TR(a.w, "Int")]
